@@ -56,6 +56,10 @@ def run_unit(unit, acc):
     for n in names:
         for vk, s in _variants(n):
             check_case(dict(unit, kind="name", name=s, base=n, variant=vk), acc)
+    # a configuration that does not mention merge_similar_labels behaves like merge_similar_labels=False (the documented default)
+    if fam == "autoware" and not merge and task in CONFIG_TASKS:
+        for n in names:
+            check_case(dict(unit, kind="cfg_default", name=n), acc)
     # target lists with repeated entries, resolved by counting and non-counting converters, directly and through a configuration
     first = next(iter(gold))
     for n in names:
@@ -136,7 +140,28 @@ def check_case(case, acc):
     L = FAMILIES[fam]
     gold = ref.golden(fam, task, merge)
     tbl = "cls" if (fam == "traffic_light" and task == "classification2d") else ("other" if fam == "traffic_light" else "aw")
-    if case["kind"] == "repeated":
+    if case["kind"] == "cfg_default":
+        from perception_eval.config import PerceptionEvaluationConfig
+        s = case["name"]
+        if _CFG_DIR[0] is None:
+            _CFG_DIR[0] = scratch.new_dir("c14cfg")
+        cfg = {"evaluation_task": task, "target_labels": [s], "label_prefix": fam, "center_distance_thresholds": [1.0], "iou_2d_thresholds": [0.5]}
+        if task in ("detection", "tracking", "fp_validation"):
+            cfg.update(max_x_position=10.0, max_y_position=10.0, min_point_numbers=[0], plane_distance_thresholds=[1.0], iou_3d_thresholds=[0.5])
+        acc.exec()
+        try:
+            ec = PerceptionEvaluationConfig(["/nonexistent"], CONFIG_TASKS[task], os.path.join(_CFG_DIR[0], "r"), cfg)
+            got = (ec.target_labels[0].name, ec.label_converter.convert_label(s).label.name)
+        except Exception as ex:  # noqa
+            got = ("EXC:" + type(ex).__name__,) * 2
+        want = conv.convert_label(s).label.name      # conv: merge_similar_labels=False
+        acc.compared()
+        acc.state((fam, tbl, "cfg_default", want, got == (want, want)), nontrivial=want in ("TRUCK", "BUS", "MOTORBIKE"))
+        acc.outcome((fam, "cfg_default", want))
+        if got != (want, want):
+            acc.violation("config:merge-default", "a configuration without the key merge_similar_labels resolves %r to target label %s / object label %s, the unmerged "
+                          "table gives %s (task=%s)" % (s, got[0], got[1], want, task), case)
+    elif case["kind"] == "repeated":
         s, other = case["name"], case["other"]
         for counting in (False, True):
             for names_ in ([s, s], [s, other, s], [other, s, s, other], [s, s.upper(), s]):
